@@ -600,7 +600,7 @@ def mutants(s, rng, per=3):
         m["schema_def"]["roots"] = [r for r in m["schema_def"]["roots"] if r[0] != "query"]
         if not m["schema_def"]["roots"]:
             m["schema_def"]["roots"] = [("mutation", some_object)]
-    else:
+    elif get_type(m, qname) is not None:
         get_type(m, qname)["name"] = "Qwery"
         for t in m["types"]:
             for p in parts(t):
